@@ -23,6 +23,12 @@ shape — (), (d,), (r, c) incl. r = 1, c = 1, extents 0, 3-D, with and without 
 The predicate evaluated on the implementation alone: the sets of coordinates changed by the successive
 proposals of one sweep are pairwise disjoint and cover exactly the (unmasked) coordinates of the variable,
 one uniform per iterator element, the shuffled iterator is a permutation of the unshuffled one.
+
+Generator ranges (widened after the seeded rounds, see `make_variant`, `toy_config`, `public_run_case`): cohorts of 1, 2, 3 and 17
+individuals; samplers built by the fit algorithm and by the two sampling-based personalisation algorithms; sampler kinds in every
+documented spelling; sampler settings given through the algorithm settings; inverse temperatures down to 0.01 and next to 1; State
+forking by reference and by copy; individuals displaced far from the posterior mode; absurd (x1000) and tiny proposal scales with
+infinite energy changes judged in the extended reals; whole annealed runs through `algorithm.run`.
 """
 from __future__ import annotations
 
@@ -107,6 +113,8 @@ def _imports():
     from leaspy.variables.state import StateForkType
     from leaspy.samplers.gibbs import (PopulationGibbsSampler, PopulationFastGibbsSampler,
                                        PopulationMetropolisHastingsSampler, IndividualGibbsSampler)
+    from leaspy.samplers import sampler_factory
+    from leaspy.exceptions import LeaspyConvergenceError
     from leaspy.exceptions import LeaspyInputError, LeaspyAlgoInputError, LeaspyModelInputError, LeaspyDataInputError
 
     class Env:
@@ -151,7 +159,11 @@ def load_model_and_data(env, name, subset=None):
         ids = list(dict.fromkeys(df["ID"]))
         keep = [ids[i] for i in subset]
         df = df[df["ID"].isin(keep)]
-    data = env.Data.from_dataframe(df, data_type="joint") if kind.startswith("joint") else env.Data.from_dataframe(df)
+    if kind.startswith("joint") and subset is not None:
+        # a small cohort may contain no observed event: the reader then asks for the number of event types (as documented)
+        data = env.Data.from_dataframe(df, data_type="joint", factory_kws={"nb_events": 1})
+    else:
+        data = env.Data.from_dataframe(df, data_type="joint") if kind.startswith("joint") else env.Data.from_dataframe(df)
     return model, env.Dataset(data)
 
 
@@ -457,7 +469,12 @@ def total_delta(e_cur, e_prop, j=None):
 def judge(u, kind_inj, a_doc, dA, dR, tinv):
     """Expected decision for one uniform draw; returns (expected|None, tag)."""
     if not (math.isfinite(dA) and math.isfinite(dR)):
-        return None, "nonfinite"
+        # extended reals: D = +inf gives alpha = exp(-D) = 0 (no uniform draw of [0, 1) is below it), D = -inf gives
+        # alpha = +inf (every draw is below it); inf - inf has no value and is counted only
+        d = dR * tinv + dA
+        if math.isnan(d):
+            return None, "nonfinite"
+        return (d < 0), "inf"
     a = alpha64(dA, dR, tinv)
     b = band(a, dA, dR, tinv)
     if kind_inj in ("tie", "below", "above", "zero", "one"):
@@ -478,21 +495,69 @@ def judge(u, kind_inj, a_doc, dA, dR, tinv):
 
 
 # ----------------------------------------------------------------------------------------------
+# spellings of the sampler kinds that `sampler_factory` documents as equivalent (case-insensitive, `_` for `-`)
+SPELLINGS = {"Gibbs": ["Gibbs", "gibbs", "GIBBS"],
+             "FastGibbs": ["FastGibbs", "fastgibbs", "FASTGIBBS"],
+             "Metropolis-Hastings": ["Metropolis-Hastings", "metropolis-hastings", "Metropolis_Hastings", "METROPOLIS_HASTINGS"]}
+WIDE_TINVS = [1.0, 0.5, 0.1, 1.0 / 3.0, 0.01, 0.999]
+N_DATA = 17   # individuals in each of the test cohorts
+
+
+def make_variant(model_name, kind, seed, wide):
+    """Configuration of one set-up, a function of (model, kind, seed, wide) only (so that a replay rebuilds it).
+    light (every set-up): the spelling of the sampler kind; wide: cohort of 1-3 individuals, samplers built by the
+    personalisation algorithms (individual samplers only, start at the prior mode), sampler settings given through
+    `sampler_pop_params` / `sampler_ind_params` (visiting order not shuffled, acceptance windows of 1-3 steps, other bands /
+    factors), copy-on-fork State, individual latent values displaced by several prior standard deviations."""
+    r = random.Random(f"C03:variant:{model_name}:{kind}:{seed}:{wide or 0}")
+    v = {"spelling": r.choice(SPELLINGS[kind])}
+    if not wide:
+        return v
+    n = 1 if wide == "one" else r.choice([None, 1, 2, 2, 3])
+    if n is not None:
+        v["subset"] = sorted(r.sample(range(N_DATA), n))
+    # the mixture model is not supported by the sampling-based personalisation algorithms
+    if kind == "Gibbs" and "/" not in model_name and r.random() < 0.5:
+        v["entry"] = r.choice(["mean_posterior", "mode_posterior"])
+    else:
+        v["entry"] = "mcmc_saem"
+    win = r.choice([1, 2, 3, 25])
+    v["pop_params"] = {"random_order_dimension": r.random() < 0.5, "acceptation_history_length": win,
+                       "mean_acceptation_rate_target_bounds": r.choice([[0.2, 0.4], [0.05, 0.7]]),
+                       "adaptive_std_factor": r.choice([0.1, 0.5])}
+    v["ind_params"] = {"acceptation_history_length": r.choice([1, 2, 3, 25]),
+                       "mean_acceptation_rate_target_bounds": r.choice([[0.2, 0.4], [0.05, 0.7]]),
+                       "adaptive_std_factor": r.choice([0.1, 0.5])}
+    v["fork"] = r.choice(["REF", "REF", "COPY"])
+    v["displace"] = r.random() < 0.5
+    return v
+
+
 class Setup:
-    def __init__(self, env, model_name, kind, seed):
+    def __init__(self, env, model_name, kind, seed, variant=None):
         self.env, self.model_name, self.kind, self.seed = env, model_name, kind, seed
+        v = self.variant = dict(variant or {})
         torch = env.torch
         torch.manual_seed(seed)
         random.seed(seed)
-        self.model, self.dataset = load_model_and_data(env, model_name)
+        self.model, self.dataset = load_model_and_data(env, model_name, subset=v.get("subset"))
+        entry = v.get("entry", "mcmc_saem")
+        kw = dict(n_iter=10, seed=seed, progress_bar=False)
+        if entry == "mcmc_saem":
+            kw["sampler_pop"] = v.get("spelling", kind)
+            if v.get("pop_params"):
+                kw["sampler_pop_params"] = dict(v["pop_params"])
+        if v.get("ind_params"):
+            kw["sampler_ind_params"] = dict(v["ind_params"])
         with core.quiet():
-            self.algo = env.algorithm_factory(env.AlgorithmSettings(
-                "mcmc_saem", n_iter=10, seed=seed, progress_bar=False, sampler_pop=kind))
+            self.algo = env.algorithm_factory(env.AlgorithmSettings(entry, **kw))
             torch.manual_seed(seed)
             random.seed(seed)
             self.state = self.algo._initialize_algo(self.model, self.dataset)
+        if v.get("fork") == "COPY":
+            self.state.auto_fork_type = env.StateForkType.COPY
         dag = self.state.dag
-        self.pop_vars = list(dag.sorted_variables_by_type[env.PopulationLatentVariable])
+        self.pop_vars = [p for p in dag.sorted_variables_by_type[env.PopulationLatentVariable] if p in self.algo.samplers]
         self.ind_vars = list(dag.sorted_variables_by_type[env.IndividualLatentVariable])
         self.base_std = {k: s.std.clone() for k, s in self.algo.samplers.items()}
 
@@ -503,12 +568,25 @@ class Setup:
             for v in names:
                 self.algo.samplers[v].sample(self.state, temperature_inv=1.0)
 
-    def randomize_std(self, var, rng):
+    def randomize_std(self, var, rng, klass="normal"):
+        """`normal`: per-entry factor exp(U(-1.2, 1.2)) on the std the algorithm built; `huge`: x30 .. x1000 (absurd proposals:
+        huge / infinite changes of the nll terms); `tiny`: x1e-3 .. x1e-1."""
         torch = self.env.torch
         s = self.algo.samplers[var]
-        fac = torch.tensor([math.exp(rng.uniform(-1.2, 1.2)) for _ in range(max(1, s.std.numel()))],
+        lo, hi = {"normal": (-1.2, 1.2), "huge": (math.log(30.0), math.log(1000.0)), "tiny": (math.log(1e-3), math.log(1e-1))}[klass]
+        fac = torch.tensor([math.exp(rng.uniform(lo, hi)) for _ in range(max(1, s.std.numel()))],
                            dtype=s.std.dtype).reshape(s.std.shape)
         s.std = (self.base_std[var] * fac).clone()
+
+    def displace(self, rng):
+        """Individual latent values several prior standard deviations away from where the warm-up left them (public assignment)."""
+        torch = self.env.torch
+        with self.state.auto_fork(None):
+            for v in self.ind_vars:
+                cur = self.state[v].detach()
+                amp = {"tau": 25.0, "xi": 3.0}.get(v, 4.0)
+                noise = torch.tensor([rng.uniform(-amp, amp) for _ in range(cur.numel())], dtype=cur.dtype).reshape(cur.shape)
+                self.state[v] = cur + noise
 
 
 def observe(chk, su: Setup, var, tinv, inj_rng, inject=True):
@@ -698,7 +776,7 @@ def analyse_pop(chk, case, su, var, tinv, ob, lines, expect):
         seg["dR"].append(dR)
         seg["props"].append(fl(prop))
         seg["acc"].append(acc)
-        if exp_dec is None or tag == "exact" or acc is None:
+        if exp_dec is None or tag in ("exact", "inf") or acc is None:
             # the double-precision model cannot take this decision reliably: close the segment here
             seg["last_open"] = True
             flush_pop_segment(case, ob, tinv, seg, lines, expect)
@@ -711,6 +789,9 @@ def analyse_pop(chk, case, su, var, tinv, ob, lines, expect):
         flush_pop_segment(case, ob, tinv, seg, lines, expect)
     if sorted(visited) != sorted(blocks_expected):
         fails.append(f"blocks visited {sorted(visited)} are not the {su.kind} blocks {blocks_expected} of the Lean model")
+    elif (su.variant.get("pop_params") or {}).get("random_order_dimension") is False and visited != blocks_expected:
+        fails.append(f"sampler_pop_params random_order_dimension=False, but the blocks are visited in the order {visited[:6]} "
+                     f"instead of the iterator's order {blocks_expected[:6]}")
     return fails, nontrivial
 
 
@@ -876,7 +957,21 @@ def ctor_class(env, e):
     return f"err:other:{type(e).__name__}"
 
 
-def toy_state(env, x0, w0):
+def toy_scale(env, kind, shape):
+    """The `scale` argument in the containers the constructor documents (float or tensor) and near relatives."""
+    torch = env.torch
+    if kind == "int":
+        return 1
+    if kind == "tensor0":
+        return torch.tensor(1.0)
+    if kind == "full":
+        return torch.ones(tuple(shape))
+    if kind == "double":
+        return torch.ones(tuple(shape), dtype=torch.float64)
+    return 1.0
+
+
+def toy_state(env, x0, w0, fork="REF"):
     """A real State on a real DAG: population latent `x` (any shape), individual latent `w` (n, *shape), normal
     priors, quadratic attachment per individual."""
     torch = env.torch
@@ -892,7 +987,7 @@ def toy_state(env, x0, w0):
             lambda *, x, w: ((w - 0.3) ** 2).reshape(w.shape[0], -1).sum(dim=1) + ((x - 0.3) ** 2).sum() / w.shape[0]),
         "nll_attach": env.LinkedVariable(lambda *, nll_attach_ind: nll_attach_ind.sum()),
     })
-    st = env.State(env.VariablesDAG.from_dict(nv), auto_fork_type=env.StateForkType.REF)
+    st = env.State(env.VariablesDAG.from_dict(nv), auto_fork_type=getattr(env.StateForkType, fork))
     st["x"] = x0.clone()
     st["w"] = w0.clone()
     assert n == st["w"].shape[0]
@@ -950,21 +1045,32 @@ def blocks_case(chk, env, spec, lines, expect):
     n = numel_of(shape)
     cls = env.SAMPLERS[kind]
     mask_t = None if mask is None else torch.tensor(mask, dtype=torch.bool).reshape(shape)
-    key = ("blocks", kind, shape, None if mask is None else tuple(mask), seed, shuffle)
+    key = ("blocks", kind, shape, None if mask is None else tuple(mask), seed, shuffle, spec.get("via"), spec.get("scale_kind"), spec.get("fork"))
     tags = {"sampler": f"blocks-{kind}", "shape_kind": f"{len(shape)}-d" + ("+mask" if mask is not None else "")}
     smp, ctor = None, "ok"
+    scale_kind, fork, via = spec.get("scale_kind", "float"), spec.get("fork", "REF"), spec.get("via")
+
+    def build(**kw):
+        scale = toy_scale(env, scale_kind, shape)
+        if via is None:
+            return cls("x", shape, scale=scale, random_order_dimension=shuffle, **kw)
+        # the documented factory, the kind given by name (any documented spelling)
+        return env.sampler_factory(via, env.PopulationLatentVariable, name="x", shape=shape, scale=scale,
+                                   random_order_dimension=shuffle, **kw)
     try:
         with core.quiet():
-            smp = cls("x", shape, scale=1.0, random_order_dimension=shuffle, **({} if mask is None else {"mask": mask_t}))
+            smp = build(**({} if mask is None else {"mask": mask_t}))
     except Exception as e:  # noqa
         ctor = ctor_class(env, e)
     if smp is None and ctor == "err:notimpl" and mask is not None:
         # the constructor refuses a mask; the mask branches of the methods are reached through the attribute
         try:
-            smp = cls("x", shape, scale=1.0, random_order_dimension=shuffle)
+            smp = build()
             smp.mask = mask_t
         except Exception as e:  # noqa
             smp = None
+    if smp is not None and type(smp) is not cls:
+        chk.impl_failure(case, f"sampler_factory({via!r}, PopulationLatentVariable, ...) returned a {type(smp).__name__}, not a {cls.__name__}")
     info = {"ctor": ctor, "obs": None}
     if smp is None:
         lines.append(blocks_line(kind, shape, mask))
@@ -980,7 +1086,7 @@ def blocks_case(chk, env, spec, lines, expect):
     visited = []
     try:
         canon = [tuple(int(v) for v in i) for i in smp._get_iterator_indices()]
-        state = toy_state(env, x0, w0)
+        state = toy_state(env, x0, w0, fork)
         orig = smp._get_shuffled_iterator_indices
 
         def tapped():
@@ -1054,16 +1160,22 @@ def indblocks_case(chk, env, spec, lines, expect):
     n, shape, seed = spec["n"], tuple(spec["shape"]), spec["seed"]
     case = dict(spec, kind="indblocks")
     d = numel_of(shape)
-    key = ("indblocks", n, shape, seed)
+    key = ("indblocks", n, shape, seed, spec.get("via"), spec.get("scale_kind"), spec.get("fork"))
     tags = {"sampler": "blocks-ind", "shape_kind": f"ind-{len(shape)}-d"}
     g = torch.Generator().manual_seed(seed)
     try:
         with core.quiet():
-            smp = env.IndividualGibbsSampler("w", shape, n_patients=n, scale=1.0)
+            scale = toy_scale(env, spec.get("scale_kind", "float"), shape)
+            if spec.get("via") is None:
+                smp = env.IndividualGibbsSampler("w", shape, n_patients=n, scale=scale)
+            else:
+                smp = env.sampler_factory(spec["via"], env.IndividualLatentVariable, name="w", shape=shape, n_patients=n, scale=scale)
+        if type(smp) is not env.IndividualGibbsSampler:
+            chk.impl_failure(case, f"sampler_factory({spec.get('via')!r}, IndividualLatentVariable, ...) returned a {type(smp).__name__}")
         std_shape = tuple(smp.std.shape)
         smp.std = (0.05 + 0.45 * torch.rand(std_shape, generator=g)).float()
         w0 = signed_values(torch, (n, *shape), g)
-        state = toy_state(env, signed_values(torch, (2,), g), w0)
+        state = toy_state(env, signed_values(torch, (2,), g), w0, spec.get("fork", "REF"))
         random.seed(seed)
         torch.manual_seed(seed)
         with core.quiet(), DrawTap(env, lambda: state["w"].detach().clone()) as tap:
@@ -1213,15 +1325,24 @@ def synthetic_specs(rng, tier):
                     r = rng.randrange(sh[0])
                     for c in range(sh[1]):
                         mask[r * sh[1] + c] = 0
-        specs.append({"kind": "blocks", "sampler_pop": kind, "shape": list(sh), "mask": mask,
-                      "seed": rng.randrange(1, 10 ** 6), "shuffle": rng.random() < 0.85})
+        specs.append(dict({"kind": "blocks", "sampler_pop": kind, "shape": list(sh), "mask": mask,
+                           "seed": rng.randrange(1, 10 ** 6), "shuffle": rng.random() < 0.85}, **toy_config(rng, kind)))
     ind = [(3, ()), (2, (1,)), (4, (3,)), (3, (2, 2)), (1, (2,)), (2, (1, 1))]
     for _ in range(6 if tier == "quick" else 40):
         nd = rng.choice([0, 1, 1, 2])
         ind.append((rng.randint(1, 6), tuple(rng.randint(1, 4) for _ in range(nd))))
-    for (n, sh) in ind:
-        specs.append({"kind": "indblocks", "n": n, "shape": list(sh), "seed": rng.randrange(1, 10 ** 6)})
+    for k, (n, sh) in enumerate(ind):
+        specs.append(dict({"kind": "indblocks", "n": n, "shape": list(sh), "seed": rng.randrange(1, 10 ** 6)},
+                          **(toy_config(rng, "Gibbs") if k >= 3 else {})))
     return specs
+
+
+def toy_config(rng, kind):
+    """How a toy sampler is obtained and used: class constructor or `sampler_factory` with a spelling of the kind; `scale` as float,
+    int, 0-d tensor, tensor of the variable's shape (float32 / float64); State forking by reference or by copy."""
+    return {"via": rng.choice([None, None] + SPELLINGS[kind]),
+            "scale_kind": rng.choice(["float", "float", "int", "tensor0", "full", "double"]),
+            "fork": rng.choice(["REF", "REF", "COPY"])}
 
 
 def run_synthetic(chk, env, specs, lines, expect):
@@ -1233,21 +1354,45 @@ def run_synthetic(chk, env, specs, lines, expect):
 
 
 # ----------------------------------------------------------------------------------------------
-def run_setup(chk, env, model_name, kind, seed, tier, lines, expect):
-    """All observed calls for one (model, population sampler kind); deterministic given (seed, tier)."""
-    rng = random.Random(f"C03:{model_name}:{kind}:{seed}")
+REFUSALS = ("err:model", "err:other:ValueError")
+
+
+def run_setup(chk, env, model_name, kind, seed, tier, lines, expect, wide=False):
+    """All observed calls for one (model, population sampler kind); deterministic given (seed, tier, wide)."""
+    rng = random.Random(f"C03:{model_name}:{kind}:{seed}" + (f":{wide}" if wide else ""))
     base_case = {"model": model_name, "sampler_pop": kind, "setup_seed": seed, "tier": tier}
+    variant = make_variant(model_name, kind, seed, wide)
+    if wide:
+        base_case.update(wide=wide, variant=variant)
+    else:
+        base_case["spelling"] = variant["spelling"]
     try:
         with core.quiet():
-            su = Setup(env, model_name, kind, seed)
+            su = Setup(env, model_name, kind, seed, variant)
             su.warm_up(12 if tier == "quick" else 25, rng)
+            if variant.get("displace"):
+                su.displace(rng)
     except Exception as e:  # noqa
         chk.impl_failure(base_case, f"sampler set-up / warm-up sweeps failed: {err_class(env, e)}: {str(e)[:200]}")
         return
-    do_ind = (kind == "Gibbs") or tier == "thorough"
+    # the samplers the algorithm built: one per latent variable it samples, named after it, of the variable's shape, of the kind asked for
+    want_cls = env.SAMPLERS[kind]
+    for v_, smp in su.algo.samplers.items():
+        shp = tuple(su.state[v_].shape)
+        exp_shape = shp[1:] if v_ in su.ind_vars else shp
+        if tuple(smp.shape) != exp_shape or smp.name != v_:
+            chk.impl_failure(base_case, f"sampler registered for {v_} has name {smp.name!r} / shape {tuple(smp.shape)}, variable shape is {exp_shape}")
+        if v_ in su.pop_vars and type(smp) is not want_cls:
+            chk.impl_failure(base_case, f"sampler_pop={variant['spelling']!r}: the sampler built for {v_} is a {type(smp).__name__}, not a {want_cls.__name__}")
+        if v_ in su.ind_vars and type(smp) is not env.IndividualGibbsSampler:
+            chk.impl_failure(base_case, f"the sampler built for the individual variable {v_} is a {type(smp).__name__}")
+    do_ind = (kind == "Gibbs") or tier == "thorough" or wide
     tinvs = list(TINVS)
     if tier == "thorough":
         tinvs.append(1.0 / rng.uniform(1.0, 12.0))
+    else:
+        # one further inverse temperature of (0, 1] per set-up: not dyadic, next to 1, next to 0, or 1/T for a random T
+        tinvs.append(rng.choice(WIDE_TINVS[3:] + [1.0 / rng.uniform(1.0, 100.0)]))
     reps = 1 if tier == "quick" else 2
     call = 0
     for rep in range(reps):
@@ -1257,12 +1402,29 @@ def run_setup(chk, env, model_name, kind, seed, tier, lines, expect):
             for var in names:
                 call += 1
                 case = dict(base_case, var=var, tinv=tinv, call=call)
-                su.randomize_std(var, rng)
+                klass = "normal"
+                if wide:
+                    klass = rng.choice(["normal"] * 6 + ["huge"] * 3 + ["tiny"])
+                    case["std_class"] = klass
+                su.randomize_std(var, rng, klass)
+                start = su.state[var].detach().clone()
                 with core.quiet():
                     ob = observe(chk, su, var, tinv, rng, inject=(rng.random() < 0.8))
                 if "error" in ob:
+                    if klass == "huge" and ob["error"] in REFUSALS:
+                        # an absurd proposal (std x30 .. x1000) that the model / torch's argument validation refuses to evaluate:
+                        # counted; the step is abandoned and the value put back through the public interface
+                        chk.tag("refused_absurd_proposal", ob["error"])
+                        try:
+                            su.state.revert()
+                        except Exception:  # noqa
+                            pass
+                        with su.state.auto_fork(None):
+                            su.state[var] = start
+                        chk.case((model_name, kind, var, tinv, seed, call, wide), nontrivial=False, tags={"outcome": "refused"})
+                        continue
                     chk.impl_failure(case, f"sample() raised {ob['error']}: {ob['msg']}")
-                    chk.case((model_name, kind, var, tinv, call), nontrivial=False, tags={"outcome": ob["error"]})
+                    chk.case((model_name, kind, var, tinv, call, wide), nontrivial=False, tags={"outcome": ob["error"]})
                     continue
                 if ob["is_ind"]:
                     fails, nt = analyse_ind(chk, case, su, var, tinv, ob, lines, expect)
@@ -1275,9 +1437,12 @@ def run_setup(chk, env, model_name, kind, seed, tier, lines, expect):
                     ue = [e for e in ob["events"] if e["t"] == "u"][0]
                     sample = dict(case, std=fl(ob["std"])[:4], first_u=fl(ue["u"])[:3], first_alpha=fl(ue["alpha"])[:3],
                                   draw_kinds=ue["kinds"][:3])
-                chk.case((model_name, kind, var, tinv, seed, call), nontrivial=(nt > 0), sample=sample,
-                         tags={"model": model_name, "sampler": "ind-Gibbs" if ob["is_ind"] else kind,
-                               "tinv": round(tinv, 3), "dtype": ob["dtype"], "outcome": "ok" if not fails else "fail"})
+                tags = {"model": model_name, "sampler": "ind-Gibbs" if ob["is_ind"] else kind,
+                        "tinv": round(tinv, 3), "dtype": ob["dtype"], "outcome": "ok" if not fails else "fail"}
+                if wide:
+                    tags.update(std_class=klass, cohort=len(su.dataset.indices), entry=variant["entry"], fork=variant["fork"],
+                                displaced=bool(variant.get("displace")))
+                chk.case((model_name, kind, var, tinv, seed, call, wide), nontrivial=(nt > 0), sample=sample, tags=tags)
                 chk.tag("decisions_nontrivial", "count", nt)
 
 
@@ -1315,6 +1480,83 @@ def iteration_case(chk, env, model_name, kind, seed, tinv):
     chk.case(("iteration", model_name, kind, seed, tinv), nontrivial=True, tags={"sampler": "iteration", "model": model_name})
 
 
+def public_run_case(chk, env, model_name, entry, seed):
+    """Through the public entry point `algorithm.run` (what `model.fit` / `model.personalize` call) with annealing on: every
+    sampling step of the short run is observed (call-through wrapper on the sampler classes' `sample`): it must receive the
+    inverse temperature the algorithm holds at that moment, a number of (0, 1] equal to 1 / temperature, and every latent
+    variable the algorithm samples must be visited exactly once per iteration."""
+    r = random.Random(f"C03:run:{model_name}:{entry}:{seed}")
+    n_iter = r.choice([6, 8, 9])
+    ann = {"do_annealing": True, "initial_temperature": r.choice([3, 10, 40]), "n_plateau": r.choice([2, 3, 4]),
+           "n_iter": n_iter - r.choice([0, 1, 2])}
+    kind = r.choice(KINDS)
+    fit = entry == "mcmc_saem"
+    subset = None if fit else sorted(r.sample(range(N_DATA), r.choice([1, 2, 4])))
+    case = {"kind": "public-run", "model": model_name, "entry": entry, "setup_seed": seed, "n_iter": n_iter, "annealing": ann,
+            "sampler_pop": kind if fit else None, "subset": subset}
+    calls = []
+    classes = list(env.SAMPLERS.values()) + [env.IndividualGibbsSampler]
+    origs = {c: c.__dict__.get("sample") for c in classes}
+    try:
+        model, dataset = load_model_and_data(env, model_name, subset=subset)
+        kw = dict(n_iter=n_iter, seed=seed, progress_bar=False, annealing=ann)
+        if fit:
+            kw["sampler_pop"] = kind
+        algo = env.algorithm_factory(env.AlgorithmSettings(entry, **kw))
+
+        def wrap(c):
+            o = c.sample
+
+            def sample(self, state, *, temperature_inv):
+                calls.append((algo.current_iteration, self.name, temperature_inv, algo.temperature_inv, algo.temperature))
+                return o(self, state, temperature_inv=temperature_inv)
+            return sample
+        wrapped = {c: wrap(c) for c in classes}
+        for c in classes:
+            c.sample = wrapped[c]
+        try:
+            with core.quiet():
+                algo.run(model, dataset)
+        finally:
+            for c in classes:
+                if origs[c] is None:
+                    del c.sample
+                else:
+                    c.sample = origs[c]
+    except env.LeaspyConvergenceError:
+        chk.tag("public_run", "fit_did_not_converge")
+        chk.case(("public-run", model_name, entry, seed), nontrivial=False, tags={"sampler": "public-run", "outcome": "no-convergence"})
+        return
+    except Exception as e:  # noqa
+        chk.impl_failure(case, f"a {n_iter}-iteration annealed {entry} run failed: {err_class(env, e)}: {str(e)[:200]}")
+        chk.case(("public-run", model_name, entry, seed), nontrivial=False, tags={"sampler": "public-run", "outcome": "error"})
+        return
+    dag = model.dag
+    want = sorted((list(dag.sorted_variables_by_type[env.PopulationLatentVariable]) if fit else [])
+                  + list(dag.sorted_variables_by_type[env.IndividualLatentVariable]))
+    fails = []
+    for k in range(1, n_iter + 1):
+        got = sorted(c[1] for c in calls if c[0] == k)
+        if got != want:
+            fails.append(f"iteration {k}: sampling steps for {got}, the latent variables to sample are {want}")
+            break
+    if len(calls) != n_iter * len(want) and not fails:
+        fails.append(f"{len(calls)} sampling steps in {n_iter} iterations over {len(want)} latent variables")
+    for (k, name, tinv, a_tinv, a_temp) in calls:
+        if not (isinstance(tinv, (int, float)) and 0 < tinv <= 1):
+            fails.append(f"iteration {k}: sampler of {name} called with temperature_inv={tinv!r}, not a number of (0, 1]")
+            break
+        if tinv != a_tinv or abs(tinv * a_temp - 1.0) > 1e-12:
+            fails.append(f"iteration {k}: sampler of {name} called with temperature_inv={tinv!r} while the algorithm's temperature is "
+                         f"{a_temp!r} (inverse {a_tinv!r})")
+            break
+    for f in fails[:3]:
+        chk.impl_failure(case, f)
+    distinct = len({c[2] for c in calls})
+    chk.case(("public-run", model_name, entry, seed), nontrivial=(distinct >= 2),
+             tags={"sampler": "public-run", "model": model_name, "entry": entry, "outcome": "ok" if not fails else "fail"})
+
+
 def run(chk: core.Check):
     env = _imports()
     chk.rule = ("block cases: one real sampler object on a toy variable (shapes (), (d,), (r,c) incl. extents 0 and 1, 3-D; "
@@ -1324,7 +1566,17 @@ def run(chk: core.Check):
                 "sweeps, with randomised per-entry std; all population sampler kinds x every latent variable x tinv in {1, .5, .1} "
                 "(+ a random 1/T in the thorough tier); ~55% of the uniform draws handed to the sampler are chosen adversarially "
                 "(exact tie u=alpha, float neighbours of alpha, alpha(1+-1e-3), alpha(1+-1e-2), 0, 1-ulp). A case is non-trivial when "
-                "at least one non-ambiguous decision has 0 < alpha < 1; distinct by (model, sampler kind, variable, tinv, seed, call index).")
+                "at least one non-ambiguous decision has 0 < alpha < 1; distinct by (model, sampler kind, variable, tinv, seed, call index). "
+                "Every set-up spells the sampler kind in one of the documented equivalent ways and adds one inverse temperature out of "
+                "{1/3, 0.01, 0.999, 1/T with T in [1, 100]}. Wide set-ups (every model kind: one on a single individual, one free): cohort of "
+                "1-3 individuals or all 17, samplers built by mcmc_saem or by mean_/mode_posterior (start at the prior mode), sampler settings "
+                "through sampler_pop_params / sampler_ind_params (unshuffled visiting order, acceptance windows 1-3, other bands / factors), "
+                "State forking by copy, individual latent values displaced by up to 25 years / 3 / 4 (tau / xi / sources), proposal scale "
+                "x30-x1000 (infinite changes of the nll terms are judged in the extended reals: D=+inf never accepted, D=-inf always; a "
+                "proposal the model refuses to evaluate is counted) or x1e-3-x1e-1. Toy samplers are obtained from the class or from "
+                "sampler_factory (any spelling), scale as float / int / 0-d / full-shape float32 / float64 tensor, State forking by reference or copy. "
+                "Public runs: annealed 6-9 iteration runs of mcmc_saem / mean_posterior / mode_posterior through algorithm.run, every "
+                "sampling step observed (temperature_inv handed over = the algorithm's 1/T in (0, 1], each latent variable once per iteration).")
     models = list(MODELS)
     lines, expect = [], []
     # 1. blocks of a sweep: real sampler classes on toy variables of arbitrary shape vs Model/Blocks.lean, and the
@@ -1342,7 +1594,7 @@ def run(chk: core.Check):
     for c in corpus:
         if c.get("kind") in ("blocks", "indblocks"):
             continue
-        run_setup(chk, env, c["model"], c["sampler_pop"], c["setup_seed"], c.get("tier", "quick"), lines, expect)
+        run_setup(chk, env, c["model"], c["sampler_pop"], c["setup_seed"], c.get("tier", "quick"), lines, expect, wide=c.get("wide") or False)
     if chk.tier == "quick":
         # every model with Gibbs (incl. individual variables); the two other kinds on a rotating subset
         plan = [(m, "Gibbs") for m in MODELS]
@@ -1354,9 +1606,21 @@ def run(chk: core.Check):
     for (m, k) in plan:
         seed = chk.rng.randrange(1, 10 ** 6)
         run_setup(chk, env, m, k, seed, chk.tier, lines, expect)
+    # 3. wide set-ups: small cohorts, samplers of the personalisation algorithms, sampler settings, copy-on-fork State, displaced
+    #    individuals, absurd / tiny proposal scales (see make_variant)
+    #    every model kind: one set-up on a single individual, one (thorough: four) with a free configuration
+    for m in models:
+        for w in (["one", "free"] if chk.tier == "quick" else ["one", "free", "free", "free", "free"]):
+            run_setup(chk, env, m, chk.rng.choice(["Gibbs", "Gibbs"] + KINDS), chk.rng.randrange(1, 10 ** 6),
+                      chk.tier, lines, expect, wide=w)
     for _ in range(2 if chk.tier == "quick" else 8):
         iteration_case(chk, env, chk.rng.choice(models), chk.rng.choice(KINDS), chk.rng.randrange(1, 10 ** 6),
                        chk.rng.choice([1.0, 0.5, 0.1, 0.25]))
+    # 4. whole annealed runs through the public entry point
+    plain = [m for m in models if "/" not in m]
+    for entry in (["mcmc_saem", "mean_posterior", "mode_posterior"] if chk.tier == "quick" else
+                  ["mcmc_saem", "mean_posterior", "mode_posterior"] * 4):
+        public_run_case(chk, env, chk.rng.choice(models if entry == "mcmc_saem" else plain), entry, chk.rng.randrange(1, 10 ** 6))
     compare_model(chk, lines, expect)
     chk.exhaustive = False
 
@@ -1371,10 +1635,14 @@ def replay(chk: core.Check, payload):
     if case.get("kind") == "iteration":
         iteration_case(chk, env, case["model"], case["sampler_pop"], case["setup_seed"], case["tinv"])
         return
+    if case.get("kind") == "public-run":
+        public_run_case(chk, env, case["model"], case["entry"], case["setup_seed"])
+        return
     if case.get("kind") in ("blocks", "indblocks"):
         spec = {k: v for k, v in case.items() if k != "visited"}
         run_synthetic(chk, env, [spec], lines, expect)
         compare_blocks(chk, env, chk.model(lines), expect)
         return
-    run_setup(chk, env, case["model"], case["sampler_pop"], case["setup_seed"], case.get("tier", "quick"), lines, expect)
+    run_setup(chk, env, case["model"], case["sampler_pop"], case["setup_seed"], case.get("tier", "quick"), lines, expect,
+              wide=case.get("wide") or False)
     compare_model(chk, lines, expect)
